@@ -1,4 +1,5 @@
 import PGM.Model.NdArr
+import PGM.Proofs.Domain
 /-! basic `get` lemmas for the numpy contracts -/
 namespace PGM.NdArr
 variable {α : Type} [Inhabited α]
@@ -43,5 +44,253 @@ theorem zipWith_WF {β γ : Type} (f : α → β → γ) (a : NdArr α) (b : NdA
 
 theorem map_WF {β : Type} (f : α → β) (a : NdArr α) (ha : a.WF) : (a.map f).WF := by
   unfold WF at *; simp [map, ha]
+
+
+/-! ### index-level lemmas -/
+
+theorem inRange_iff (s idx : List Nat) :
+    InRange s idx ↔ idx.length = s.length ∧ ∀ i, i < s.length → idx.getD i 0 < s.getD i 0 := by
+  induction s generalizing idx with
+  | nil => cases idx <;> simp [InRange]
+  | cons n ns ih =>
+    cases idx with
+    | nil => simp [InRange]
+    | cons i is =>
+      simp only [InRange, ih, List.length_cons]
+      constructor
+      · rintro ⟨h0, hl, hr⟩
+        refine ⟨by omega, ?_⟩
+        intro j hj
+        cases j with
+        | zero => simpa using h0
+        | succ j => simpa using hr j (by omega)
+      · rintro ⟨hl, hr⟩
+        refine ⟨by simpa using hr 0 (by omega), by omega, ?_⟩
+        intro j hj
+        simpa using hr (j+1) (by omega)
+
+theorem inRange_map {β : Type} (l : List β) (c σ : β → Nat) (h : ∀ a ∈ l, σ a < c a) :
+    InRange (l.map c) (l.map σ) := by
+  induction l with
+  | nil => trivial
+  | cons x xs ih =>
+    exact ⟨h x (by simp), ih (fun a ha => h a (by simp [ha]))⟩
+
+theorem size_replicate_one (d : Nat) : size (List.replicate d 1) = 1 := by
+  induction d with
+  | zero => rfl
+  | succ d ih => simp [List.replicate_succ, size, ih]
+
+theorem size_append_ones (s : List Nat) (d : Nat) : size (s ++ List.replicate d 1) = size s := by
+  induction s with
+  | nil => simpa [size] using size_replicate_one d
+  | cons n ns ih => simp [size, ih]
+
+theorem ravel_replicate_zero (s : List Nat) (d : Nat) : ravel s (List.replicate d 0) = 0 := by
+  induction s generalizing d with
+  | nil => rfl
+  | cons n ns ih =>
+    cases d with
+    | zero => rfl
+    | succ d => simp [List.replicate_succ, ravel, ih]
+
+theorem ravel_append_zeros (s i : List Nat) (d : Nat) (h : i.length = s.length) :
+    ravel (s ++ List.replicate d 1) (i ++ List.replicate d 0) = ravel s i := by
+  induction s generalizing i with
+  | nil =>
+    cases i with
+    | nil => simpa [ravel] using ravel_replicate_zero (List.replicate d 1) d
+    | cons => simp at h
+  | cons n ns ih =>
+    cases i with
+    | nil => simp at h
+    | cons j js =>
+      simp only [List.cons_append, ravel, size_append_ones]
+      rw [ih js (by simpa using h)]
+
+
+/-! ### `moveaxisPerm n (range k) ax` -/
+
+theorem moveaxisPerm_length (n : Nat) (src dst : List Nat) : (moveaxisPerm n src dst).length = n := by
+  simp [moveaxisPerm]
+
+theorem moveaxisPerm_getD (n : Nat) (src dst : List Nat) (p : Nat) (hp : p < n) :
+    (moveaxisPerm n src dst).getD p 0 =
+      if dst.contains p then src.getD (dst.idxOf p) 0
+      else ((List.range n).filter (fun j => !src.contains j)).getD
+        (((List.range p).filter (fun q => !dst.contains q)).length) 0 := by
+  simp [moveaxisPerm, List.getD_eq_getElem?_getD, List.getElem?_map, List.getElem?_range hp]
+
+theorem getD_range (k i : Nat) (h : i < k) : (List.range k).getD i 0 = i := by
+  simp [List.getD_eq_getElem?_getD, List.getElem?_range h]
+
+section perm
+variable (n : Nat) (ax : List Nat) (hnd : ax.Nodup) (hlt : ∀ x ∈ ax, x < n)
+include hnd hlt
+
+theorem ax_length_le : ax.length ≤ n := by
+  have := length_filter_not_mem_range n ax hnd hlt
+  omega
+
+theorem moveaxisPerm_mem (p : Nat) (hp : p ∈ ax) :
+    (moveaxisPerm n (List.range ax.length) ax).getD p 0 = ax.idxOf p := by
+  rw [moveaxisPerm_getD n _ _ p (hlt p hp)]
+  have : ax.contains p = true := by simpa using hp
+  rw [if_pos this]
+  exact getD_range _ _ (List.idxOf_lt_length_iff.mpr hp)
+
+theorem moveaxisPerm_not_mem (p : Nat) (hpn : p < n) (hp : p ∉ ax) :
+    ax.length ≤ (moveaxisPerm n (List.range ax.length) ax).getD p 0 ∧
+      (moveaxisPerm n (List.range ax.length) ax).getD p 0 < n := by
+  rw [moveaxisPerm_getD n _ _ p hpn]
+  have hc : ax.contains p = false := by simpa using hp
+  rw [hc]
+  simp only [Bool.false_eq_true, if_false]
+  have hk := ax_length_le n ax hnd hlt
+  have h1 := length_filter_not_mem_range n ax hnd hlt
+  have h2 := length_filter_not_mem_range n (List.range ax.length) List.nodup_range
+    (by intro x hx; simp at hx; omega)
+  have h3 := length_filter_range_lt n p (fun q => !ax.contains q) hpn (by simpa using hp)
+  simp only [List.length_range] at h2
+  have h4 : ((List.range p).filter (fun q => !ax.contains q)).length <
+      ((List.range n).filter (fun j => !(List.range ax.length).contains j)).length := by omega
+  rw [List.getD_eq_getElem?_getD, List.getElem?_eq_getElem h4]
+  obtain ⟨hm1, hm2⟩ := List.mem_filter.mp (List.getElem_mem h4)
+  simp only [Option.getD_some]
+  generalize ((List.range n).filter (fun j => !(List.range ax.length).contains j))[((List.range p).filter (fun q => !ax.contains q)).length] = x at hm1 hm2 ⊢
+  simp at hm1 hm2
+  exact ⟨hm2, hm1⟩
+
+theorem moveaxisPerm_idxOf_lt (j : Nat) (hj : j < ax.length) :
+    (moveaxisPerm n (List.range ax.length) ax).idxOf j = ax[j] := by
+  have hmem : ax[j] ∈ ax := List.getElem_mem hj
+  have hn : ax[j] < n := hlt _ hmem
+  have hval := moveaxisPerm_mem n ax hnd hlt ax[j] hmem
+  rw [hnd.idxOf_getElem j hj] at hval
+  have hlen := moveaxisPerm_length n (List.range ax.length) ax
+  -- `j` occurs in the permutation
+  have hjin : j ∈ moveaxisPerm n (List.range ax.length) ax := by
+    rw [List.mem_iff_getElem]
+    refine ⟨ax[j], by omega, ?_⟩
+    rw [List.getD_eq_getElem?_getD, List.getElem?_eq_getElem (by omega)] at hval
+    simpa using hval
+  have hq := List.idxOf_lt_length_iff.mpr hjin
+  have hget := List.getElem_idxOf hq
+  generalize hqdef : (moveaxisPerm n (List.range ax.length) ax).idxOf j = q at *
+  rw [hlen] at hq
+  have hgetD : (moveaxisPerm n (List.range ax.length) ax).getD q 0 = j := by
+    rw [List.getD_eq_getElem?_getD, List.getElem?_eq_getElem (by omega)]
+    simpa using hget
+  by_cases hqa : q ∈ ax
+  · rw [moveaxisPerm_mem n ax hnd hlt q hqa] at hgetD
+    have h5 := List.getElem_idxOf (List.idxOf_lt_length_iff.mpr hqa)
+    simp only [hgetD] at h5
+    exact h5.symm
+  · have := (moveaxisPerm_not_mem n ax hnd hlt q hq hqa).1
+    omega
+
+theorem moveaxisPerm_idxOf_ge (j : Nat) (hj : ax.length ≤ j) :
+    n ≤ (moveaxisPerm n (List.range ax.length) ax).idxOf j ∨
+      (moveaxisPerm n (List.range ax.length) ax).idxOf j ∉ ax := by
+  have hlen := moveaxisPerm_length n (List.range ax.length) ax
+  by_cases hjin : j ∈ moveaxisPerm n (List.range ax.length) ax
+  · right
+    have hq := List.idxOf_lt_length_iff.mpr hjin
+    have hget := List.getElem_idxOf hq
+    generalize hqdef : (moveaxisPerm n (List.range ax.length) ax).idxOf j = q at *
+    have hgetD : (moveaxisPerm n (List.range ax.length) ax).getD q 0 = j := by
+      rw [List.getD_eq_getElem?_getD, List.getElem?_eq_getElem hq]
+      simpa using hget
+    intro hqa
+    rw [moveaxisPerm_mem n ax hnd hlt q hqa] at hgetD
+    have := List.idxOf_lt_length_iff.mpr hqa
+    omega
+  · left
+    rw [List.idxOf_eq_length hjin, hlen]
+    exact Nat.le_refl _
+
+end perm
+
+/-! ### `moveaxis (range k) ax` on an array whose trailing axes have extent 1 -/
+
+theorem moveaxis_shape (a : NdArr α) (src dst : List Nat) :
+    (a.moveaxis src dst).shape = (moveaxisPerm a.shape.length src dst).map (fun p => a.shape.getD p 0) := rfl
+
+theorem moveaxis_shape_getD (a : NdArr α) (src dst : List Nat) (p : Nat) (hp : p < a.shape.length) :
+    (a.moveaxis src dst).shape.getD p 0
+      = a.shape.getD ((moveaxisPerm a.shape.length src dst).getD p 0) 0 := by
+  have hl := moveaxisPerm_length a.shape.length src dst
+  rw [moveaxis_shape]
+  simp only [List.getD_eq_getElem?_getD, List.getElem?_map]
+  rw [List.getElem?_eq_getElem (by omega)]
+  simp
+
+section ones
+variable (a : NdArr α) (s : List Nat) (d : Nat) (ax : List Nat)
+  (hs : a.shape = s ++ List.replicate d 1) (hnd : ax.Nodup) (hlt : ∀ x ∈ ax, x < s.length + d)
+  (hk : ax.length = s.length)
+include hs hnd hlt hk
+
+theorem moveaxis_ones_shape_length :
+    (a.moveaxis (List.range ax.length) ax).shape.length = s.length + d := by
+  rw [moveaxis_shape]; simp [moveaxisPerm_length, hs]
+
+theorem moveaxis_ones_shape_mem (p : Nat) (hp : p ∈ ax) :
+    (a.moveaxis (List.range ax.length) ax).shape.getD p 0 = s.getD (ax.idxOf p) 0 := by
+  have hn : a.shape.length = s.length + d := by simp [hs]
+  rw [moveaxis_shape_getD a _ _ p (by rw [hn]; exact hlt p hp), hn,
+    moveaxisPerm_mem _ ax hnd hlt p hp, hs]
+  have := List.idxOf_lt_length_iff.mpr hp
+  simp only [List.getD_eq_getElem?_getD]
+  rw [List.getElem?_append_left (by omega)]
+
+theorem moveaxis_ones_shape_not_mem (p : Nat) (hpn : p < s.length + d) (hp : p ∉ ax) :
+    (a.moveaxis (List.range ax.length) ax).shape.getD p 0 = 1 := by
+  have hn : a.shape.length = s.length + d := by simp [hs]
+  rw [moveaxis_shape_getD a _ _ p (by rw [hn]; exact hpn), hn, hs]
+  obtain ⟨h1, h2⟩ := moveaxisPerm_not_mem _ ax hnd hlt p hpn hp
+  generalize (moveaxisPerm (s.length + d) (List.range ax.length) ax).getD p 0 = q at h1 h2
+  simp only [List.getD_eq_getElem?_getD]
+  rw [List.getElem?_append_right (by omega)]
+  rw [List.getElem?_replicate]
+  rw [if_pos (by omega)]
+  rfl
+
+theorem get_moveaxis_ones (idx : List Nat)
+    (hr : InRange (a.moveaxis (List.range ax.length) ax).shape idx)
+    (h0 : ∀ p, p < s.length + d → p ∉ ax → idx.getD p 0 = 0) :
+    (a.moveaxis (List.range ax.length) ax).get idx
+      = a.data.getD (ravel s (ax.map (fun p => idx.getD p 0))) default := by
+  have hn : a.shape.length = s.length + d := by simp [hs]
+  have hidx : idx.length = s.length + d := by
+    rw [hr.length_eq]; exact moveaxis_ones_shape_length a s d ax hs hnd hlt hk
+  have key : (List.range a.shape.length).map
+      (fun j => idx.getD ((moveaxisPerm a.shape.length (List.range ax.length) ax).idxOf j) 0)
+      = ax.map (fun p => idx.getD p 0) ++ List.replicate d 0 := by
+    rw [hn]
+    apply List.ext_getElem
+    · simp [hk]
+    · intro i h1 h2
+      simp only [List.getElem_map, List.getElem_range]
+      by_cases hi : i < ax.length
+      · rw [List.getElem_append_left (by simpa using hi)]
+        rw [moveaxisPerm_idxOf_lt _ ax hnd hlt i hi]
+        simp
+      · rw [List.getElem_append_right (by simpa using hi)]
+        simp only [List.getElem_replicate]
+        rcases moveaxisPerm_idxOf_ge (s.length + d) ax hnd hlt i (by omega) with h | h
+        · rw [List.getD_eq_getElem?_getD, List.getElem?_eq_none (by omega)]; rfl
+        · by_cases hq : (moveaxisPerm (s.length + d) (List.range ax.length) ax).idxOf i < s.length + d
+          · exact h0 _ hq h
+          · rw [List.getD_eq_getElem?_getD, List.getElem?_eq_none (by omega)]; rfl
+  have hget : (a.moveaxis (List.range ax.length) ax).get idx
+      = a.get ((List.range a.shape.length).map
+          (fun j => idx.getD ((moveaxisPerm a.shape.length (List.range ax.length) ax).idxOf j) 0)) :=
+    get_ofFn _ _ _ hr
+  rw [hget, key]
+  simp only [get]
+  rw [hs, ravel_append_zeros _ _ _ (by simp [hk])]
+
+end ones
 
 end PGM.NdArr
